@@ -80,12 +80,11 @@ Section Proofs.
 Variable rt : runtime.
 Variable E : env.
 Variable leaf_ok : nat -> pv -> bool.
-Variable required : nat -> nat -> bool.
 Hypothesis L : LeafLaws rt leaf_ok.
 Hypothesis WF : wf_env E.
 
-Notation conf := (conforms rt E leaf_ok required).
-Notation unmf := (unm_fixed rt E required).
+Notation conf := (conforms rt E leaf_ok).
+Notation unmf := (unm rt E).
 
 (* ---- unions ---- *)
 Lemma first_ok_some : forall (A : Type) (f : A -> pv -> res pv) (l : list A) (x v : pv),
@@ -277,7 +276,7 @@ Proof.
       apply IHfs; [|exact Ht]. intros fd' Hfd'. apply Hgood. right. exact Hfd'.
 Qed.
 
-(* the body of StructuredTypeUnmarshaller.__call__ (repaired), for a class cd registered as c *)
+(* the body of StructuredTypeUnmarshaller.__call__, for a class cd registered as c *)
 Lemma class_conforms : forall n c cd x v,
   (forall T x v, unmf n T x = Ok v -> conf n T v = true) ->
   E c = Some (NClass cd) ->
@@ -290,7 +289,7 @@ Lemma class_conforms : forall n c cd x v,
                           | None => Ok kw end
               | k => if unhashable rt k then Raise EType else Ok kw
               end)) kvs (Ok []))
-         (fun kw => construct_class_fixed required c cd kw))) = Ok v ->
+         (fun kw => construct_class c cd kw))) = Ok v ->
   match cflavour cd, v with
   | (FDataclass | FPlain), PObj c' fs =>
       Nat.eqb c c' &&
@@ -304,7 +303,7 @@ Lemma class_conforms : forall n c cd x v,
                                      | Some ft => conf n ft (snd kv)
                                      | None => false end
                          | _ => false end) l &&
-      forallb (fun fd => negb (required c (fname fd)) || has_key (fname fd) l) (cfields cd)
+      forallb (fun fd => negb (existsb (Nat.eqb (fname fd)) (crequired cd)) || has_key (fname fd) l) (cfields cd)
   | _, _ => false
   end = true.
 Proof.
@@ -318,7 +317,7 @@ Proof.
   pose proof (WF c cd HE) as Hnd.
   assert (Hgood : forall fd, In fd (cfields cd) -> field_ty cd (fname fd) = Some (fty fd)).
   { intros fd Hin. apply field_ty_nodup; assumption. }
-  unfold construct_class_fixed in H. destruct (cflavour cd).
+  unfold construct_class in H. destruct (cflavour cd).
   - (* dataclass *)
     apply bind_ok in H. destruct H as [l [Hl H]]. inversion H; subst. rewrite Nat.eqb_refl. cbn [andb].
     exact (fill_fields_all2 cd n kw Hinv _ _ Hgood Hl).
@@ -328,7 +327,7 @@ Proof.
     + intros fd fv Hp. apply andb_true_iff in Hp. exact (proj2 Hp).
     + exact (fill_fields_all2 cd n kw Hinv _ _ Hgood Hl).
   - (* typed dict *)
-    destruct (forallb (fun fd => negb (required c (fname fd)) || has_kw (fname fd) kw) (cfields cd)) eqn:Hreq; [|discriminate].
+    destruct (forallb (fun fd => negb (existsb (Nat.eqb (fname fd)) (crequired cd)) || has_kw (fname fd) kw) (cfields cd)) eqn:Hreq; [|discriminate].
     inversion H; subst. apply andb_true_iff. split.
     + apply forallb_forall. intros kv Hkv. apply in_map_iff in Hkv. destruct Hkv as [fv [Heq Hin]]. subst kv. cbn [fst snd].
       destruct (Hinv fv Hin) as [ft [Hft Hc]]. rewrite Hft. exact Hc.
@@ -339,11 +338,11 @@ Proof.
     exact (fill_fields_all2 cd n kw Hinv _ _ Hgood Hl).
 Qed.
 
-(* ------------------------------------------------------------------ the repaired semantics conforms *)
-Theorem conforms_fixed : forall fuel T x v, unmf fuel T x = Ok v -> conf fuel T v = true.
+(* ------------------------------------------------------------------ whatever unm returns conforms *)
+Theorem unm_conforms : forall fuel T x v, unmf fuel T x = Ok v -> conf fuel T v = true.
 Proof.
   induction fuel as [|n IH]; intros T x v H; [discriminate|].
-  destruct T as [s| |k a|k kt vt|ts|ts|c|c|s|t'|i t'|i t'|i c|t'|t']; cbn [unm_fixed conforms] in *.
+  destruct T as [s| |k a|k kt vt|ts|ts|c|c|s|t'|i t'|i t'|i c|t'|t']; cbn [unm conforms] in *.
   - (* leaf *) exact (leaf_u_ok _ _ L _ _ _ H).
   - (* None *) rewrite (none_u_none _ _ L _ _ H). apply pv_eqb_refl.
   - (* seq *)
@@ -387,88 +386,6 @@ Proof.
   - exact (IH _ _ _ H).
 Qed.
 
-(* ------------------------------------------------------------------ Core.unm = repaired semantics under the guard *)
-Lemma construct_class_agree : forall c cd kw,
-  match cflavour cd with
-  | FTypedDict => negb (existsb (fun fd => required c (fname fd)) (cfields cd))
-  | _ => true
-  end = true ->
-  construct_class c cd kw = construct_class_fixed required c cd kw.
-Proof.
-  intros c cd kw H. unfold construct_class, construct_class_fixed. destruct (cflavour cd); try reflexivity.
-  assert (G : forallb (fun fd => negb (required c (fname fd)) || has_kw (fname fd) kw) (cfields cd) = true).
-  { apply forallb_forall. intros fd Hfd. apply negb_true_iff in H.
-    destruct (required c (fname fd)) eqn:Hr; [|reflexivity]. exfalso.
-    assert (existsb (fun fd => required c (fname fd)) (cfields cd) = true) by (apply existsb_exists; exists fd; auto).
-    congruence. }
-  rewrite G. reflexivity.
-Qed.
-
-Theorem unm_agrees_under_guard : forall fuel T,
-  c03_guard E required fuel T = true -> forall x, unm rt E fuel T x = unmf fuel T x.
-Proof.
-  induction fuel as [|n IH]; intros T G x; [reflexivity|].
-  assert (HC : forall c cd, E c = Some (NClass cd) ->
-     (forallb (fun fd => c03_guard E required n (fty fd)) (cfields cd) &&
-      match cflavour cd with
-      | FTypedDict => negb (existsb (fun fd => required c (fname fd)) (cfields cd))
-      | _ => true end) = true ->
-     forall x,
-     bind (load rt x) (fun d => bind (iteritems rt E d) (fun kvs =>
-       bind (fold_left (fun acc kv => bind acc (fun kw =>
-               match fst kv with
-               | PKey f => match field_ty cd f with
-                           | Some ft => bind (unm rt E n ft (snd kv)) (fun v' => Ok (kw_set f v' kw))
-                           | None => Ok kw end
-               | k => if unhashable rt k then Raise EType else Ok kw end)) kvs (Ok []))
-            (fun kw => construct_class c cd kw))) =
-     bind (load rt x) (fun d => bind (iteritems rt E d) (fun kvs =>
-       bind (fold_left (fun acc kv => bind acc (fun kw =>
-               match fst kv with
-               | PKey f => match field_ty cd f with
-                           | Some ft => bind (unmf n ft (snd kv)) (fun v' => Ok (kw_set f v' kw))
-                           | None => Ok kw end
-               | k => if unhashable rt k then Raise EType else Ok kw end)) kvs (Ok []))
-            (fun kw => construct_class_fixed required c cd kw)))).
-  { intros c cd HE Hg x0. apply andb_true_iff in Hg. destruct Hg as [Hg1 Hg2].
-    apply bind_ext. intros d. apply bind_ext. intros kvs.
-    rewrite (fold_left_ext _ (fun acc kv => bind acc (fun kw =>
-               match fst kv with
-               | PKey f => match field_ty cd f with
-                           | Some ft => bind (unmf n ft (snd kv)) (fun v' => Ok (kw_set f v' kw))
-                           | None => Ok kw end
-               | k => if unhashable rt k then Raise EType else Ok kw end))).
-    - apply bind_ext. intros kw. apply construct_class_agree. exact Hg2.
-    - intros acc kv _. apply bind_ext. intros kw. destruct (fst kv); try reflexivity.
-      destruct (field_ty cd f) as [ft|] eqn:Hft; [|reflexivity].
-      destruct (field_ty_in _ _ _ Hft) as [fd [Hin [Hty _]]]. subst ft.
-      rewrite (IH _ (proj1 (forallb_forall _ _) Hg1 fd Hin)). reflexivity. }
-  destruct T as [s| |k a|k kt vt|ts|ts|c|c|s|t'|i t'|i t'|i c|t'|t']; cbn [unm unm_fixed c03_guard] in *;
-    try reflexivity; try (apply IH; exact G).
-  - (* seq *)
-    apply bind_ext. intros d. apply bind_ext. intros vs.
-    rewrite (mapM_ext (unm rt E n a) (unmf n a)); [reflexivity|]. intros y _. apply IH. exact G.
-  - (* map *)
-    apply andb_true_iff in G. destruct G as [G1 G2].
-    apply bind_ext. intros d. apply bind_ext. intros kvs.
-    rewrite (mapM_ext _ (fun kv => bind (unmf n kt (fst kv)) (fun k' => bind (unmf n vt (snd kv)) (fun v' => Ok (k', v'))))); [reflexivity|].
-    intros kv _. rewrite (IH _ G1). apply bind_ext. intros k'. rewrite (IH _ G2). reflexivity.
-  - (* tuple *) discriminate.
-  - (* union *)
-    apply first_ok_ext. intros t Ht. apply IH.
-    exact (proj1 (forallb_forall _ _) G t (union_stack_in _ _ Ht)).
-  - destruct (E c) as [[cd|t']|] eqn:HE; [exact (HC c cd HE G x)|apply IH; exact G|reflexivity].
-  - destruct (E c) as [[cd|t']|] eqn:HE; [exact (HC c cd HE G x)|apply IH; exact G|reflexivity].
-  - destruct (E c) as [[cd|t']|] eqn:HE; [exact (HC c cd HE G x)|apply IH; exact G|reflexivity].
-Qed.
-
-(* the unrepaired semantics (Core.unm), outside fixed tuples and TypedDicts with required keys *)
-Theorem conforms_guarded : forall fuel T x v,
-  c03_guard E required fuel T = true -> unm rt E fuel T x = Ok v -> conf fuel T v = true.
-Proof.
-  intros fuel T x v G H. rewrite (unm_agrees_under_guard fuel T G x) in H. exact (conforms_fixed _ _ _ _ H).
-Qed.
-
 End Proofs.
 
 (* ------------------------------------------------------------------ conformance does not depend on the fuel once it suffices *)
@@ -476,8 +393,7 @@ Section Mono.
 Variable rt : runtime.
 Variable E : env.
 Variable leaf_ok : nat -> pv -> bool.
-Variable required : nat -> nat -> bool.
-Notation conf := (conforms rt E leaf_ok required).
+Notation conf := (conforms rt E leaf_ok).
 
 Lemma all2_impl : forall {A B} (p q : A -> B -> bool) a b,
   (forall x y, In x a -> p x y = true -> q x y = true) -> all2 p a b = true -> all2 q a b = true.
@@ -507,7 +423,7 @@ Proof.
         forallb (fun kv => match fst kv with
                            | PKey f => match field_ty cd f with Some ft => conf n ft (snd kv) | None => false end
                            | _ => false end) l &&
-        forallb (fun fd => negb (required c (fname fd)) || has_key (fname fd) l) (cfields cd)
+        forallb (fun fd => negb (existsb (Nat.eqb (fname fd)) (crequired cd)) || has_key (fname fd) l) (cfields cd)
     | _, _ => false
     end = true ->
     match cflavour cd, v with
@@ -520,7 +436,7 @@ Proof.
         forallb (fun kv => match fst kv with
                            | PKey f => match field_ty cd f with Some ft => conf (S n) ft (snd kv) | None => false end
                            | _ => false end) l &&
-        forallb (fun fd => negb (required c (fname fd)) || has_key (fname fd) l) (cfields cd)
+        forallb (fun fd => negb (existsb (Nat.eqb (fname fd)) (crequired cd)) || has_key (fname fd) l) (cfields cd)
     | _, _ => false
     end = true).
   { intros c cd Hc.
